@@ -122,7 +122,7 @@ def s_wrapper(ctx, api, symbolic_options=False):
         if ok_res:
             for f in FIELDS:
                 ctx.check(f"{tag}.proto_form.result_field_is_serialization_of_ir_result.{f}", res2.ghost_src[f] == want[f], CL)
-        ctx.check(f"{tag}.proto_form.argument_not_written", p.ghost_src == before or res2 is p, CL)
+        ctx.check(f"{tag}.proto_form.argument_not_written", p.ghost_src == before, CL + " — the functional variants leave their argument unchanged")
     else:
         # Fields outside the transformation's frame may keep the caller's content: equal to the serialisation
         # under the (assumed, listed) serde round-trip; fields the transformation may change must come from it.
@@ -161,6 +161,47 @@ def s_replace_functions(ctx):
     ctx.check("C15.utils.replace_functions.argument_not_written", p.ghost_src == before, CL)
 
 
+def s_replace_functions_inplace(ctx):
+    """replace_functions_inplace(irmodel, functions): refuses a model that has model-local functions; otherwise registers
+    every given function under its identifier and runs InlinePass, then RemoveUnusedOpsetsPass on THE GIVEN model.  Frame:
+    the opset imports are written by those passes only (RemoveUnusedOpsetsPass knows which domains are still used - a node
+    of the same domain without an expansion keeps its import); the function writes no other part of the model."""
+    import onnx_ir as ir
+    from onnxscript.utils import replace
+    I = Interp(ctx)
+    W = World(I)
+    m = W.new_ir_model({f: ("orig", f) for f in FIELDS})
+    has_local = ctx.choose(2, "model has model-local functions") == 1
+    funcs = {("local", "Existing", ""): "existing"} if has_local else {}
+    imports = {"": 18, "local": 2, "other": 1}
+    m.fields.update(functions=funcs, opset_imports=imports)
+    n = ctx.choose(3, "number of functions given")
+    given = []
+    for i in range(n):
+        f = SObj(ir.Function, f"function{i}")
+        ident = ("local", f"Custom{i}", "")
+
+        def f_id():
+            raise AssertionError
+        I.models[f_id] = (lambda v: lambda interp: v)(ident)
+        f.fields.update(identifier=f_id, domain="local", name=f"Custom{i}", overload="")
+        given.append((ident, f))
+    try:
+        I.call(replace.replace_functions_inplace, [m, [f for _, f in given]])
+    except PyRaise as e:
+        ctx.check("C15.utils.replace_functions_inplace.refuses_exactly_models_with_local_functions",
+                  has_local and isinstance(e.exc, ValueError) and not W.log and funcs == {("local", "Existing", ""): "existing"}, CL)
+        return
+    ctx.check("C15.utils.replace_functions_inplace.refuses_exactly_models_with_local_functions", not has_local, CL)
+    ctx.check("C15.utils.replace_functions_inplace.every_given_function_is_registered_under_its_identifier",
+              list(funcs.items()) == given, CL)
+    names = [d[0] for mid, d in W.log if mid == id(m)]
+    ctx.check("C15.utils.replace_functions_inplace.inlines_then_removes_unused_opsets_on_the_given_model",
+              names == ["InlinePass", "RemoveUnusedOpsetsPass"] and all(mid == id(m) for mid, _ in W.log), CL)
+    ctx.check("C15.utils.replace_functions_inplace.opset_imports_are_written_by_the_passes_only", imports == {"": 18, "local": 2, "other": 1},
+              CL + " — 'opset imports ... survive exactly': a domain still used by a node without an expansion must keep its import")
+
+
 def _mk(api, symbolic_options=False):
     def run(ctx):
         return s_wrapper(ctx, api, symbolic_options)
@@ -179,6 +220,8 @@ SCENARIOS = [
     for api in ["optimizer.optimize", "optimizer.fold_constants", "version_converter.convert_version"]
 ] + [
     Scenario("C15.rewriter.rewrite[empty rules]", s_rewrite_empty_rules, [("onnxscript/rewriter/__init__.py", "rewrite")]),
+    Scenario("C15.utils.replace_functions_inplace", s_replace_functions_inplace, [("onnxscript/utils/replace.py", "replace_functions_inplace")],
+             trusted=["InlinePass / RemoveUnusedOpsetsPass (onnx_ir.passes.common)"]),
     Scenario("C15.utils.replace_functions", s_replace_functions,
              [("onnxscript/utils/replace.py", "replace_functions"), ("onnxscript/utils/replace.py", "replace_functions_inplace")]),
 ]
